@@ -12,3 +12,34 @@ package jp
 // Every method of the recursive-descent parser keeps the invariant and the buffer; syntax errors are raised by
 // p.raise (a controlled panic recovered in Parse); no runtime fault on any input.
 // (The sweep of the text parser methods is not enabled yet: several methods need individual pre/postconditions.)
+
+//@ unit jpstrings
+
+//@ pred JPPlain(b) = jMap[b] == 'o' || jMap[b] == '8'
+
+// Table lemmas: a byte copied through is neither a control byte, a backslash nor one of the two quote delimiters.
+//@ lemma JPMapPlain(b int) [C14]: 0 <= b && b < 256 && jMap[b] == 'o' ==> 0x20 <= b && b < 0x7f && b != '\'' && b != '"' && b != '\\'
+//@ lemma JPMapEsc(b int) [C14]: 0 <= b && b < 256 && jMap[b] != 'o' && jMap[b] != '8' && jMap[b] != '.' ==>
+//@     (b == 8 && jMap[b] == 'b') || (b == 9 && jMap[b] == 't') || (b == 10 && jMap[b] == 'n') || (b == 12 && jMap[b] == 'f')
+//@     || (b == 13 && jMap[b] == 'r') || (b == '"' && jMap[b] == '"') || (b == '\\' && jMap[b] == '\\') || (b == '\'' && jMap[b] == '\'')
+
+//@ func AppendString
+//@   modifies heap(buf)
+//@   ensures [C14 C07 grow] len(result) >= old(len(buf)) + 2 + len(s) && (arrid(result) == old(arrid(buf)) || fresh(result))
+//@   loop 0
+//@     let n0 = len(buf)
+//@     let bytes0 = str($s)
+//@     invariant arrid(buf) != arrid($s) && ident(str($s), bytes0)
+//@     invariant 0 <= start && start <= len(s) && 0 <= skip && skip <= len(s) && start <= $k + 1 + 4 && $n == len(s)
+//@     invariant $k + 1 <= skip ==> start <= skip
+//@     invariant skip <= $k + 1 ==> start <= $k + 1
+//@     invariant [C14 plain] forall j: start <= j && j < len(s) && (j <= $k || j < skip) ==> JPPlain(s[j])
+//@     invariant [C14 grow] len(buf) >= n0 + start && (arrid(buf) == old(arrid(buf)) || fresh(buf))
+
+// A key is written in dot form only if every byte is a token byte and the key is not empty.
+//@ func (Child).tokenOk
+//@   ensures [C14 token] result ==> len(f) > 0 && (forall j: 0 <= j && j < len(f) ==> tokenMap[f[j]] != '.')
+//@   loop 0
+//@     let bytes0 = str($s)
+//@     invariant ident(str($s), bytes0)
+//@     invariant [C14 token] forall j: 0 <= j && j <= $k ==> tokenMap[f[j]] != '.'
